@@ -31,7 +31,8 @@ WHY_PROP = {
 }
 INVS_BY_PROP = {"C03": "TypeOK DepsFirst DepsFirstTransitive WorkerBound", "C04": "TypeOK NoLostSignal NoRace Resolved",
                 "C05": "TypeOK KeepGoing KeepGoingExact NeverBelowFailure FailureRecorded", "C18": "TypeOK Resolved"}
-PROPS_BY_PROP = {"C03": "AtMostOnce", "C04": "", "C05": "StopsStarts", "C18": "StopsStarts"}
+# Refines: Walker.tla implements the abstract executor of Executor.tla (dependency order, worker bound, no command after the stop)
+PROPS_BY_PROP = {"C03": "AtMostOnce Refines", "C04": "", "C05": "StopsStarts Refines", "C18": "StopsStarts"}
 
 
 def exhaustive(chk, tmp, prop):
@@ -46,14 +47,24 @@ def exhaustive(chk, tmp, prop):
     for name, n, mw, ext, to in runs:
         cfg = (f"SPECIFICATION Spec\nCONSTANTS\n  N = {n}\n  MaxWorkers = {mw}\n  SplitRegistration = TRUE\n"
                f"  AllowExtCancel = {'TRUE' if ext else 'FALSE'}\nINVARIANTS {INVS_BY_PROP[prop]}\n")
-        if PROPS_BY_PROP[prop]:
-            cfg += f"PROPERTIES {PROPS_BY_PROP[prop]}\n"
+        props = PROPS_BY_PROP[prop]
+        if name == "n4":
+            props = props.replace("Refines", "").strip()      # (the refinement is checked on the <= 3-node families; temporal checking triples the time)
+        if props:
+            cfg += f"PROPERTIES {props}\n"
         if quick and ext:
             cfg += "CONSTRAINT NotReturned\n"
         res = core.tlc(os.path.join(tmp, "ex_" + name), "Walker.tla", "ex.cfg", timeout=to, files={"ex.cfg": cfg}, heap="24g")
         core.tlc_must_pass(res, f"Walker {name}")
         chk.add_tlc(f"Walker exhaustive {name}: all DAGs <= {n} nodes x selections x failure sets x fail-fast x workers<= {mw}, ext-cancel={ext}",
-                    res, invariants=INVS_BY_PROP[prop].split(), action_properties=PROPS_BY_PROP[prop].split(), deadlock_checked=True)
+                    res, invariants=INVS_BY_PROP[prop].split(), action_properties=props.split(), deadlock_checked=True)
+    if prop in ("C03", "C05"):
+        nn = 4 if quick else 5
+        cfg = (f"SPECIFICATION MCSpec\nCONSTANTS\n  N = {nn}\n  MaxWorkers = 2\n  XNodes = {{{', '.join(str(i) for i in range(1, nn + 1))}}}\n"
+               "INVARIANTS XDepsFirst XBound XOnlyFallibleFail\nPROPERTIES XNoCommandAfterStop\nCHECK_DEADLOCK FALSE\n")
+        res = core.tlc(os.path.join(tmp, "ex_abs"), "ExecutorMC.tla", "x.cfg", timeout=1800, files={"x.cfg": cfg}, heap="16g")
+        core.tlc_must_pass(res, "Executor")
+        chk.add_tlc(f"Executor (the abstract contract Walker.tla refines): all DAGs <= {nn} nodes; XDepsFirst, XBound, XOnlyFallibleFail, XNoCommandAfterStop", res)
     if not quick and prop == "C04":
         cfg = ("SPECIFICATION FairSpec\nCONSTANTS\n  N = 2\n  MaxWorkers = 2\n  SplitRegistration = TRUE\n  AllowExtCancel = TRUE\nPROPERTIES Terminates\n")
         res = core.tlc(os.path.join(tmp, "ex_live"), "Walker.tla", "live.cfg", timeout=1800, files={"live.cfg": cfg}, heap="16g")
